@@ -275,8 +275,8 @@ def gen_token_program(rnd, size):
 
 def plan(tier):
     specs = [{'kind': 'shipped', 'n': 25 if tier == 'quick' else 600, 'k': i} for i in range(4 if tier == 'quick' else 8)]
-    specs += [{'kind': 'programs', 'n': 700 if tier == 'quick' else 40000, 'k': i} for i in range(4 if tier == 'quick' else 8)]
-    specs += [{'kind': 'tokens', 'n': 700 if tier == 'quick' else 40000, 'k': i} for i in range(7 if tier == 'quick' else 8)]
+    specs += [{'kind': 'programs', 'n': 1500 if tier == 'quick' else 40000, 'k': i} for i in range(4 if tier == 'quick' else 8)]
+    specs += [{'kind': 'tokens', 'n': 1500 if tier == 'quick' else 40000, 'k': i} for i in range(7 if tier == 'quick' else 8)]
     specs += [{'kind': 'fresh'}]
     return specs
 
